@@ -59,6 +59,7 @@ type FuncContract struct {
 	Ensures  []*Clause
 	AssumedEnsures []*Clause // postconditions that callers may assume although this run does not prove them (listed in the evidence)
 	Panics   []*Clause // function panics exactly when (disjunction)
+	IndexPanics bool   // an index out of range is a panic exit of this function (characterised by its `panics` clause) instead of a safety obligation
 	OpaqueMul bool     // products of two non-constant integer terms are written tm(a, b), uninterpreted: what the proof knows about them are lemma instances
 	OpaqueDiv bool     // in contract expressions a / b with a non-constant divisor is written dv(a, b), uninterpreted (known through lemma instances only)
 	NoPanicFrom []*Clause // with maypanic: callees whose characterised panic must nevertheless be unreachable here
@@ -124,7 +125,7 @@ type Contracts struct {
 
 var clauseKeywords = map[string]bool{
 	"func": true, "lemma": true, "axiom": true, "mode": true, "prelude": true, "requires": true, "ensures": true, "panics": true,
-	"maypanic": true, "nopanic": true, "ghostlist": true, "logs": true, "opaquemul": true, "opaquediv": true, "proves": true, "modifies": true, "loop": true, "invariant": true, "decreases": true, "unroll": true, "witness": true,
+	"maypanic": true, "indexpanics": true, "nopanic": true, "ghostlist": true, "logs": true, "opaquemul": true, "opaquediv": true, "proves": true, "modifies": true, "loop": true, "invariant": true, "decreases": true, "unroll": true, "witness": true,
 	"let": true, "postlet": true, "trusted": true, "inline": true, "pure": true, "use": true, "postuse": true, "opaque": true,
 	"havoc": true, "nosafety": true, "assume": true, "param": true, "loopmodifies": true, "looplet": true, "loopuse": true, "stepassert": true, "bits": true, "end": true, "macro": true, "cases": true, "ghostview": true, "assumedensures": true,
 }
@@ -352,6 +353,8 @@ func (cs *Contracts) parseFile(file, pkg, src string) error {
 			fc.Pure = true
 		case "maypanic":
 			fc.MayPanic = true
+		case "indexpanics":
+			fc.IndexPanics = true
 		case "nopanic":
 			// nopanic <callee>: although this function may panic (maypanic), the stated panic of that callee is proved unreachable
 			fc.NoPanicFrom = append(fc.NoPanicFrom, &Clause{Kind: "nopanic", Props: r.props, Text: strings.TrimSpace(r.text), File: file, Line: r.line})
